@@ -281,6 +281,7 @@ func TestVerifC14Lists(t *testing.T) {
 	c14lSetURL(t, out, rnd)
 	c14lStatus(t, out, rnd)
 	c14lIDs(t, out, rnd)
+	c14lRemove(t, out, rnd)
 }
 
 // ---------------------------------------------------------------- (I)
